@@ -253,6 +253,11 @@ func (d *Descriptor) readAsMapEntry(out Outputter, data []byte) (n int, err erro
 
 	l := len(data)
 
+	// An entry is output as a key and a value. Either can be missing from
+	// the data - an empty key or a zero value is omitted - but not from the
+	// output.
+	var seenKey, seenValue bool
+
 	var offset int
 	for offset < l {
 		wt, index, n := plenccore.ReadTag(data[offset:])
@@ -280,6 +285,16 @@ func (d *Descriptor) readAsMapEntry(out Outputter, data []byte) (n int, err erro
 			continue
 		}
 
+		if elt == &d.Elements[0] {
+			seenKey = true
+		} else {
+			if !seenKey {
+				out.String("")
+				seenKey = true
+			}
+			seenValue = true
+		}
+
 		fl := l
 		if wt == plenccore.WTLength {
 			// For WTLength types we read out the length and ensure the data we
@@ -302,7 +317,58 @@ func (d *Descriptor) readAsMapEntry(out Outputter, data []byte) (n int, err erro
 		offset += n
 	}
 
+	if !seenKey {
+		out.String("")
+	}
+	if !seenValue {
+		d.Elements[1].zero(out)
+	}
+
 	return offset, nil
+}
+
+// zero outputs what an omitted value of the described type stands for
+func (d *Descriptor) zero(out Outputter) {
+	if d.ExplicitPresence {
+		out.Raw("null")
+		return
+	}
+	switch d.Type {
+	case FieldTypeInt:
+		out.Int64(0)
+	case FieldTypeFlatInt:
+		if d.LogicalType == LogicalTypeTimestamp {
+			out.Time(time.Time{})
+		} else {
+			out.Int64(0)
+		}
+	case FieldTypeUint:
+		out.Uint64(0)
+	case FieldTypeFloat32:
+		out.Float32(0)
+	case FieldTypeFloat64:
+		out.Float64(0)
+	case FieldTypeString:
+		out.String("")
+	case FieldTypeBool:
+		out.Bool(false)
+	case FieldTypeTime:
+		out.Time(time.Time{})
+	case FieldTypeSlice:
+		if d.isValidJSONMap() {
+			out.StartObject()
+			out.EndObject()
+		} else {
+			out.StartArray()
+			out.EndArray()
+		}
+	case FieldTypeJSONArray:
+		out.StartArray()
+		out.EndArray()
+	default:
+		out.StartObject()
+		out.EndObject()
+	}
 }
 
 func (d *Descriptor) readAsStruct(out Outputter, data []byte) (n int, err error) {
